@@ -101,7 +101,10 @@ CLAIMED = {
                      'Thread pre-emption inside a stage is not claimed.',
                 ref='DESIGN.md 4/C13', note=TRUST),
 }
-NA = {'C20': 'not built yet: needs a recording matplotlib model (lowest priority in DESIGN.md section 8)'}
+NA = {'C20': "the property is about matplotlib's own state and the file system (global rcParams afterwards, open figures, files on disk, "
+             "'raises nothing' for a call chain that runs almost entirely inside matplotlib and numpy string arrays): none of that is ampycloud "
+             "code that can be executed symbolically, and a recording stand-in for matplotlib would decide a different statement; running the "
+             "real plotting code on concrete chunks would be testing, not solver-based checking (DESIGN.md section 4/C20)"}
 
 
 def main():
